@@ -540,6 +540,11 @@ class Trace:
         if c[2].endswith("::contains") or c[2].endswith("::contains_key"):
             if not truth:
                 return add(st, ("assumed_false", c))
+            # a table element that is already pending / visited need not be pushed again
+            if len(c[3]) >= 2:
+                eo = elem_of(c[3][1])
+                if eo is not None:
+                    return add(st, ("pushed", eo[0]))
         return None
 
     def on_site_reexec(self, eng, st, site):
@@ -693,6 +698,14 @@ class GroupPhases:
         self.sites = {}
 
     def on_variant(self, eng, st, inner, v, b):
+        if inner[0] == "call" and inner[2].endswith("::pop") and v == "0" and inner[3]:
+            # the container that held the group's contents has been drained
+            C = mk_deref(inner[3][0])
+            hit = [f for f in st.flags if f[0] == "holds_members" and f[1] == C]
+            if hit:
+                st = rem(st, lambda g: g in hit)
+                return add(st, *[("group_destroyed", f[2]) for f in hit])
+            return None
         if inner[0] != "call" or inner[2] != "core::iter::Iterator::next":
             return None
         src = iter_source(inner[3][0])
@@ -755,6 +768,11 @@ class GroupPhases:
                 M = f[2]
                 eng.obl("TS-2", "group-destroy-order", ev.b)
                 self._check_destroy(eng, ev, st, M)
+                if v != f[1] and mentions(v, lambda x: x[0] == "call" and (x[2].endswith("::pop") or x[2] == "core::iter::Iterator::next")):
+                    # one element taken out of the container: the rest is still waiting
+                    st = add(st, ("member_destroyed", M))
+                    out = st
+                    continue
                 st = rem(st, lambda g: g == f)
                 inside = any(g[0] == "in_loop" and g[1] == M and ("moved_in", M, g[2]) in st.flags for g in st.flags)
                 st = add(st, ("member_destroyed", M) if inside else ("group_destroyed", M))
